@@ -36,7 +36,13 @@ class StatefulSession(impl.Session):
                  self.username, sql, ",".join(f"{k}={v}" for k, v in sorted(attrs.items())))], ["db", "mode", "cs", "user", "sql", "attrs"]
 
     async def schema(self):
-        return {"db": {"t": {"a": "INT"}}}
+        # every database a connection may make its default has a table "t" (and one named after the database) whose columns are
+        # named after the database: catalog statements that do not qualify the table are answered from the connection's own default
+        m = {"db": {"t": {"a": "INT"}}}
+        for k in range(8):
+            for d in (f"db{k}", f"i{k}"):
+                m[d] = {"t": {f"c_{d}": "INT", "a": "TEXT"}, f"only_{d}": {"x": "INT"}}
+        return m
 
 
 def gen_program(rng, k):
@@ -63,9 +69,14 @@ def gen_program(rng, k):
             # a statement under an optimizer hint stays in flight while others run; its variables are read back afterwards
             prog.append(("app", bytes([cl.COM_QUERY]) + b"SELECT /*+ SET_VAR(sql_mode = 'H%d') SET_VAR(max_execution_time = %d) */ x FROM h%d" % (k, 100 + k, k)))
             prog.append(("cmd", bytes([cl.COM_QUERY]) + b"SELECT @@sql_mode, @@max_execution_time"))
-        elif r < 0.68:
+        elif r < 0.66:
             prog.append(("cmd", bytes([cl.COM_QUERY]) + rng.choice([b"SELECT @@sql_mode", b"SHOW VARIABLES LIKE 'sql_mode'", b"SELECT CONNECTION_ID() > 0", b"SELECT @@external_user",
                                                                        b"SHOW VARIABLES LIKE 'external_user'", b"SELECT @@external_user, @@sql_mode"])))
+        elif r < 0.705:
+            # catalog statements that depend on the connection's default database
+            prog.append(("cmd", rng.choice([bytes([cl.COM_QUERY]) + b"SHOW TABLES", bytes([cl.COM_QUERY]) + b"SHOW COLUMNS FROM t", bytes([cl.COM_QUERY]) + b"DESCRIBE t",
+                                            bytes([cl.COM_QUERY]) + b"SHOW FULL TABLES", bytes([cl.COM_FIELD_LIST]) + b"t\0", bytes([cl.COM_QUERY]) + b"SHOW INDEX FROM t",
+                                            bytes([cl.COM_QUERY]) + b"SHOW TABLES LIKE 'only%'"])))
         elif r < 0.72:
             # text that ends inside a multi-byte character, through every decoding path (answered with ERR; whatever a decoder
             # keeps of it must not reach another connection)
